@@ -13,12 +13,13 @@ EXPL = ("Decides the *borders* named in the property from the exact branch condi
         "hash 1 from context L, block hash 2 from context L+1 (or the two single-piece sources) and the block size from L; the dedicated last-piece hash "
         "is started exactly at a first piece beyond the fork limit when that limit is the largest block size and not yet started, is fed "
         "every byte while active, and is what block hash 2 takes when there is no next context and L > 0 (step table / digest rows). NOT decided: the block-size choice "
-        "and the last-piece hash as values at large indices (arithmetic over the input).")
+        "and the last-piece hash as values at large indices (arithmetic over the input). Configuration msrv (the branches build.rs selects for rustc < 1.67): "
+        "the hand-written u64_ilog2 is 63 - leading_zeros(value) (SA-FORMULA, linear form over the one call).")
 
 
 def run(ctx):
     cfgs = ["rel", "unsafe"] if ctx.tier == "quick" else ["rel", "dbg", "unsafe", "nodef"]
-    ctx.progs(cfgs)  # build all configurations in parallel
+    ctx.progs(cfgs + ["msrv"])  # build all configurations in parallel
     for c in cfgs:
         prog = ctx.prog(c)
         ctx.guard("C13", "set_fixed", lambda: gen.guards_set_fixed(ctx, prog))
@@ -49,4 +50,7 @@ def run(ctx):
         ctx.guard("C13", "path summaries", lambda: summary.check_paths(ctx, prog, 'internals::generate::Generator', floor=2))
         if c in ("dbg", "unsafe_dbg", "strict_dbg"):
             ctx.guard("C13", "beliefs", lambda: beliefs.census(ctx, prog, beliefs.SCOPES["C13"][0], floor=beliefs.SCOPES["C13"][1]))
-    return ctx.finish(EXPL, ["rustc's compile-time evaluation of MAX_INPUT_SIZE / MIN_RECOMMENDED_INPUT_SIZE", "u64_ilog2 computes floor(log2) (checked arithmetically by the repository's own tests, not here)"])
+    # the version-gated twin of the logarithm behind the size-based block-size index (selected by build.rs, not by a cargo feature)
+    msrv = ctx.prog("msrv")
+    ctx.guard("C13", "ilog2 fallback", lambda: gen.ilog2_fallback(ctx, msrv))
+    return ctx.finish(EXPL, ["rustc's compile-time evaluation of MAX_INPUT_SIZE / MIN_RECOMMENDED_INPUT_SIZE", "core's u64::ilog2 / leading_zeros compute what their documentation says"])
